@@ -801,6 +801,37 @@ func (g *gen) doInstr(fn *ssa.Function, fid int, b *ssa.BasicBlock, in ssa.Instr
 	}
 }
 
+// cN: the content node n levels below x
+func (g *gen) cN(x, n int) int {
+	for i := 0; i < n && x != 0; i++ {
+		x = g.content(x)
+	}
+	return x
+}
+
+// held: the reference v is what the memory at addr holds (a store, a map insertion, a load, a look-up): the memory
+// behind v is the memory behind what addr holds, level by level
+func (g *gen) held(v, addr int) {
+	for k := 1; k <= 3; k++ {
+		g.aedge(g.cN(v, k), g.cN(addr, k+1))
+		g.aedge(g.cN(addr, k+1), g.cN(v, k))
+	}
+}
+
+func isFuncType(t types.Type) bool {
+	_, ok := t.Underlying().(*types.Signature)
+	return ok
+}
+
+// same: x and v are the same function value (a closure has an identity: whoever holds it reaches its captured
+// variables).  Besides "v is derived from x" this records the way back, so that a closure kept in memory that outlives
+// the call — a package variable, a table built at start-up — makes the variables it captured shared memory too.
+func (g *gen) same(x, v int, t types.Type) {
+	if isFuncType(t) {
+		g.aedge(v, x)
+	}
+}
+
 // aliasInstr: which values are views of / pointers into the same memory, and what is written
 func (g *gen) aliasInstr(fn *ssa.Function, fid int, in ssa.Instruction) {
 	isInit := b2i(fn.Name() == "init" || strings.HasPrefix(fn.Name(), "init#") || strings.HasPrefix(fn.Name(), "init$"))
@@ -819,20 +850,24 @@ func (g *gen) aliasInstr(fn *ssa.Function, fid int, in ssa.Instruction) {
 	case *ssa.UnOp:
 		if x.Op == token.MUL && viewType(x.Type()) {
 			g.aedge(g.content(g.val(x.X)), g.val(x)) // a pointer / slice / string loaded from that memory
+			g.held(g.val(x), g.val(x.X))
 		}
 	case *ssa.Phi:
 		for _, e := range x.Edges {
 			g.derive(g.val(e), g.val(x))
+			g.same(g.val(e), g.val(x), x.Type())
 		}
 	case *ssa.Convert:
 		g.derive(g.val(x.X), g.val(x))
 	case *ssa.ChangeType:
 		g.derive(g.val(x.X), g.val(x))
+		g.same(g.val(x.X), g.val(x), x.Type())
 	case *ssa.ChangeInterface:
 		g.derive(g.val(x.X), g.val(x))
 	case *ssa.MakeInterface:
 		if viewType(x.X.Type()) {
 			g.derive(g.val(x.X), g.val(x))
+			g.same(g.val(x.X), g.val(x), x.X.Type())
 		}
 	case *ssa.TypeAssert:
 		g.derive(g.val(x.X), g.val(x))
@@ -849,6 +884,8 @@ func (g *gen) aliasInstr(fn *ssa.Function, fid int, in ssa.Instruction) {
 	case *ssa.Lookup:
 		if viewType(x.Type()) {
 			g.aedge(g.val(x.X), g.val(x))
+			g.aedge(g.content(g.val(x.X)), g.val(x))
+			g.held(g.val(x), g.val(x.X))
 		}
 	case *ssa.Extract:
 		if viewType(x.Type()) {
@@ -863,13 +900,27 @@ func (g *gen) aliasInstr(fn *ssa.Function, fid int, in ssa.Instruction) {
 		for i, bnd := range x.Bindings {
 			g.aedge(g.val(bnd), g.val(f.FreeVars[i]))
 			g.aedge(g.val(bnd), g.val(x))
+			for k := 0; k <= 3; k++ {
+				g.aedge(g.val(x), g.cN(g.val(f.FreeVars[i]), k)) // whoever holds the closure reaches what it captured
+				if k > 0 {
+					g.aedge(g.cN(g.val(bnd), k), g.cN(g.val(f.FreeVars[i]), k)) // the free variable is the binding
+					g.aedge(g.cN(g.val(f.FreeVars[i]), k), g.cN(g.val(bnd), k))
+				}
+			}
 		}
 	case *ssa.Store:
 		if viewType(x.Val.Type()) {
 			g.aedge(g.val(x.Val), g.content(g.val(x.Addr))) // the memory now holds that view
+			g.same(g.val(x.Val), g.content(g.val(x.Addr)), x.Val.Type())
+			g.held(g.val(x.Val), g.val(x.Addr))
 		}
 		wr(x.Addr, "store")
 	case *ssa.MapUpdate:
+		if viewType(x.Value.Type()) {
+			g.aedge(g.val(x.Value), g.content(g.val(x.Map))) // the map now holds that view
+			g.same(g.val(x.Value), g.content(g.val(x.Map)), x.Value.Type())
+			g.held(g.val(x.Value), g.val(x.Map))
+		}
 		wr(x.Map, "map update")
 	case *ssa.Send:
 		g.aedge(g.val(x.X), g.val(x.Chan))
@@ -878,6 +929,7 @@ func (g *gen) aliasInstr(fn *ssa.Function, fid int, in ssa.Instruction) {
 			rn := g.ret(fn, i)
 			if viewType(r.Type()) {
 				g.derive(g.val(r), rn)
+				g.same(g.val(r), rn, r.Type())
 			}
 		}
 	case *ssa.Call, *ssa.Defer, *ssa.Go:
@@ -921,6 +973,7 @@ func (g *gen) aliasInstr(fn *ssa.Function, fid int, in ssa.Instruction) {
 				nres := sc.Signature.Results().Len()
 				for i := 0; i < nres; i++ {
 					g.derive(g.retIn(sc, i, g.ctxFor(in, sc)), g.tupleSlot(result, i, nres))
+					g.same(g.retIn(sc, i, g.ctxFor(in, sc)), g.tupleSlot(result, i, nres), sc.Signature.Results().At(i).Type())
 				}
 				return
 			}
@@ -1166,7 +1219,7 @@ func main() {
 	}
 	sort.Ints(globals)
 	for _, id := range globals {
-		g.globSrc = append(g.globSrc, id, g.content(id))
+		g.globSrc = append(g.globSrc, id, g.cN(id, 1), g.cN(id, 2), g.cN(id, 3)) // the variable, what it holds, what that refers to, ...
 	}
 	pr := func(xs [][2]int) string {
 		o := make([]string, len(xs))
